@@ -507,3 +507,102 @@ pub fn oversize_probe(sh: &dyn DynShape, msgs: &Msgs, asynchronous: bool) -> Res
     }
     Ok(true)
 }
+
+/// Deterministic bulk cases: (a) fifty small messages that all sit in the receive buffer after one read, so that
+/// fifty recv() calls in a row are served without touching the pipe; (b) one message of 100 000 bytes through
+/// pipes that take everything at once, 65 536 bytes per call, or 4 096 bytes per call.
+pub fn bulk_probe(reg: &crate::run::Registry, asynchronous: bool, st: &mut crate::run::Stats) -> crate::run::CaseResult {
+    use crate::run::lib;
+    let variant = if asynchronous { "async" } else { "blocking" };
+    for name in ["ATestMsg", "u32", "FlatVec<u8, u32>", "AU32VecU8"] {
+        let Some(idx) = reg.by_name(name) else { continue };
+        let sh = reg.shapes[idx].as_ref();
+        let ty = sh.ty();
+        let mins = super::common::minimal_values(ty);
+        let values: Vec<Value> = (0..50).map(|i| mins[i % mins.len()].clone()).collect();
+        let mut stream = vec![];
+        for v in &values {
+            let n = model::size_of(ty, v);
+            let img = model::encode(ty, v, n, 0, &mut Canonical).map_err(|_| crate::run::Violation { key: "harness-bulk".into(), msg: "harness: cannot encode a minimal value".into() })?;
+            stream.extend_from_slice(&img.bytes);
+        }
+        let total = stream.len();
+        let mut source = ScriptSource::new(stream.clone(), vec![], ROut::Deliver(usize::MAX), 4 * total + 64);
+        st.eval(1);
+        let rep = if asynchronous {
+            lib(|| sh.io_async_recv(&mut source, total, values.len() + 3, 0, 64 * values.len() + 256))
+        } else {
+            lib(|| sh.io_recv_blocking(&mut source, total, values.len() + 3, 0))
+        };
+        let what = format!("[{} receiver, 50 small messages ({} bytes) delivered by a single read]", variant, total);
+        let rep = match rep {
+            Ok(r) => r,
+            Err(p) => crate::vfail!("panic", "{}: receiver panicked: {} {}", name, p, what),
+        };
+        if rep.stalled {
+            crate::vfail!("stalled", "{}: a recv future returned Pending without arranging a wake-up although every byte had been delivered {}", name, what);
+        }
+        if let Err((k, m)) = check_received(name, &values, &rep.events, true) {
+            crate::vfail!(k, "{} {}", m, what);
+        }
+        st.nontrivial((name, variant, "bulk-small"), || serde_json::json!({"shape": name, "variant": variant, "messages": 50, "bytes": total}));
+    }
+    if let Some(idx) = reg.by_name("FlatVec<u8, u32>") {
+        let sh = reg.shapes[idx].as_ref();
+        let ty = sh.ty();
+        let big = Value::Vec((0..100_000u32).map(|i| Value::Scalar((i % 251) as u128)).collect());
+        let small = Value::Vec(vec![Value::Scalar(7), Value::Scalar(8)]);
+        let values = vec![small.clone(), big, small];
+        let mut stream = vec![];
+        for v in &values {
+            let n = model::size_of(ty, v);
+            let img = model::encode(ty, v, n, 0, &mut Canonical).map_err(|_| crate::run::Violation { key: "harness-bulk".into(), msg: "harness: cannot encode the big message".into() })?;
+            stream.extend_from_slice(&img.bytes);
+        }
+        let total = stream.len();
+        let max_len = 100_004;
+        for chunk in [usize::MAX, 65_536, 4_096] {
+            let what = format!("[{} IO, messages of 8, 100004 and 8 bytes, pipe takes / gives {} bytes per call]", variant, chunk as isize);
+            let mut sink = ScriptSink::new(vec![], WOut::Accept(chunk), 4 * (total / chunk.min(total) + 8) + 64);
+            st.eval(1);
+            let sends = if asynchronous {
+                lib(|| sh.io_async_send(&values, &[], max_len, &mut sink, 8 * (total / chunk.min(total) + 8) + 256, false))
+            } else {
+                lib(|| sh.io_send_blocking(&values, &[], max_len, &mut sink, false))
+            };
+            let sends = match sends {
+                Ok(x) => x,
+                Err(p) => crate::vfail!("panic", "FlatVec<u8, u32>: sender panicked: {} {}", p, what),
+            };
+            if sends.stalled {
+                crate::vfail!("stalled", "FlatVec<u8, u32>: a send future stopped making progress {}", what);
+            }
+            if let Err((k, m)) = all_sent("FlatVec<u8, u32>", &sends.results, values.len()) {
+                crate::vfail!(k, "{} {}", m, what);
+            }
+            if sink.data.len() != total {
+                crate::vfail!("stream", "FlatVec<u8, u32>: the sink holds {} bytes, the three messages occupy {} {}", sink.data.len(), total, what);
+            }
+            // (padding bytes of the 8-byte messages are the only undefined ones: compare through the receiver)
+            let mut source = ScriptSource::new(sink.data.clone(), vec![], ROut::Deliver(chunk), 4 * (total / chunk.min(total) + 8) + 64);
+            st.eval(1);
+            let rep = if asynchronous {
+                lib(|| sh.io_async_recv(&mut source, max_len, values.len() + 3, 0, 8 * (total / chunk.min(total) + 8) + 256))
+            } else {
+                lib(|| sh.io_recv_blocking(&mut source, max_len, values.len() + 3, 0))
+            };
+            let rep = match rep {
+                Ok(r) => r,
+                Err(p) => crate::vfail!("panic", "FlatVec<u8, u32>: receiver panicked: {} {}", p, what),
+            };
+            if rep.stalled {
+                crate::vfail!("stalled", "FlatVec<u8, u32>: a recv future stopped making progress {}", what);
+            }
+            if let Err((k, m)) = check_received("FlatVec<u8, u32>", &values, &rep.events, true) {
+                crate::vfail!(k, "{} {}", m.chars().take(300).collect::<String>(), what);
+            }
+            st.nontrivial(("bulk-big", variant, chunk), || serde_json::json!({"shape": "FlatVec<u8, u32>", "variant": variant, "message_bytes": 100_004, "chunk": chunk as isize}));
+        }
+    }
+    Ok(())
+}
